@@ -337,7 +337,8 @@ impl AstLowering {
             }
 
             ast::Expr::Index(o, i) => {
-                let obj = self.lower_expr(&o.node)?;
+                // Use the checker's type of the object: the emitter picks the indexing helper from it.
+                let obj = self.lower_expr_spanned(o)?;
                 let idx = self.lower_expr(&i.node)?;
                 let elem_ty = match &obj.ty {
                     IrType::List(e) => (**e).clone(),
@@ -529,7 +530,7 @@ impl AstLowering {
             }
 
             ast::Expr::Slice(target, slice) => {
-                let target_expr = self.lower_expr(&target.node)?;
+                let target_expr = self.lower_expr_spanned(target)?;
                 let start = slice
                     .start
                     .as_ref()
